@@ -93,4 +93,39 @@ def simEnv (c : SimTimeCond) (prev cur : Int) : Env := fun
 def todEnv (c : TodCond) (prev cur : Int) : Env := fun
   | .cur => cur | .prev => prev | .thr => c.thr | .rep => b2i c.rep | .firstDay => c.firstDay | _ => 0
 
+/-! ### the constructors' normalisation of `repeat` and `threshold` -/
+
+/-- the Python type a number was given in (int, float, numpy integer, numpy float): the constructors must not care -/
+inductive NumKind where
+  | pyInt | pyFloat | npInt | npFloat
+  deriving Repr, DecidableEq
+
+/-- the `repeat` argument of `SimTimeCondition(model, relation, threshold, repeat, first_time)` -/
+inductive RepeatArg where
+  | pyTrue | pyFalse | pyNone
+  | num (r : Int) (k : NumKind)
+  deriving Repr, DecidableEq
+
+/-- the statements of `__init__` that set `self._repeat` -/
+inductive RepStmt where
+  | assignArg                    -- self._repeat = repeat
+  | ifIsTrueAssign (n : Int)     -- if repeat is True: self._repeat = n
+  deriving Repr, DecidableEq
+
+/-- the value `evaluate` then works with: a number is itself (whatever its type), `True` is 1, `False` / `None` are falsy -/
+def RepeatArg.value : RepeatArg → Int
+  | .pyTrue => 1 | .pyFalse => 0 | .pyNone => 0 | .num r _ => r
+
+def RepStmt.run (arg : RepeatArg) (cur : Int) : RepStmt → Int
+  | .assignArg => arg.value
+  | .ifIsTrueAssign n => if arg = .pyTrue then n else cur
+
+/-- `self._repeat` after `__init__` (0 = no repeat) -/
+def normRepeat (prog : List RepStmt) (arg : RepeatArg) : Int := prog.foldl (fun cur st => st.run arg cur) 0
+
+/-- how `__init__` turns the `threshold` argument into seconds -/
+inductive ThrShape where
+  | hoursStringTimes3600ElseParseValue   -- str without ':' → float(threshold) * 3600., else self._parse_value(threshold)
+  deriving Repr, DecidableEq
+
 end Wntr.TimeProg
